@@ -2,7 +2,9 @@ package gbn
 
 import (
 	"context"
+	"fmt"
 	"io"
+	"math"
 	"time"
 )
 
@@ -150,6 +152,14 @@ handshakeLoop:
 
 		g.log.Debugf("Received client SYN. Sending back.")
 		n = msg.(*PacketSYN).N
+
+		// The sequence space is n+1, which must fit in a uint8. The
+		// client side refuses to propose such a value, so this SYN does
+		// not come from a well-behaved client.
+		if n == math.MaxUint8 {
+			return fmt.Errorf("received SYN with n=%d, n must be "+
+				"smaller than %d", n, math.MaxUint8)
+		}
 
 		// Send SYN back
 		syn := &PacketSYN{N: n}
